@@ -153,11 +153,21 @@ public:
       plan[ "prop"] = "C09";
       const long long  maxk = thorough ? 16 : 6;
       const long long  k = cfg.chance( 1, 2) ? cfg.range( 2, 3) : cfg.range( 2, maxk);
+      // swarm: in some runs all threads work with handler constraints of
+      // different kinds over the same scalar arguments (helpers shared by all
+      // handlers are then used with different data at the same time)
+      const bool  constraint_clash = cfg.chance( 1, 4);
+      static const char* const  hcons[] = { "all_of", "any_of", "one_of" };
       Json  threads = Json::array();
       for (long long t = 0; t < k; ++t)
       {
          Json  job = Json::object();
-         Json  recipe = recipes::genRecipe( cfg, true, false);
+         Json  recipe = recipes::genRecipe( cfg, true, false, true);
+         if (constraint_clash)
+         {
+            recipe[ "constraint"] = hcons[ (static_cast< size_t>( t) + cfg.below( 2)) % 3];
+            if (!recipes::has( recipe, "R2")) recipe[ "sets"].push( "R2");
+         }
          // list destinations in most jobs: the separator handling is where
          // helper classes could share state
          if (cfg.chance( 2, 3))
